@@ -142,6 +142,31 @@ pub(crate) struct ReactCache
 
 impl ReactCache
 {
+    #[cfg(feature = "verif_hooks")]
+    pub(crate) fn verif_tables(&self) -> Vec<(crate::verif::TableKey, Vec<crate::verif::Registration>)>
+    {
+        use crate::verif::{registration, TableKey};
+        let regs = |handles: &Vec<ReactorHandle>| handles.iter().map(registration).collect::<Vec<_>>();
+        let mut out = Vec::new();
+        for (id, r) in self.component_reactors.iter()
+        {
+            out.push((TableKey::Insertion(*id), regs(&r.insertion_callbacks)));
+            out.push((TableKey::Mutation(*id), regs(&r.mutation_callbacks)));
+            out.push((TableKey::Removal(*id), regs(&r.removal_callbacks)));
+        }
+        for (e, r) in self.despawn_reactors.iter() { out.push((TableKey::Despawn(*e), regs(r))); }
+        for (id, r) in self.any_entity_event_reactors.iter() { out.push((TableKey::AnyEntityEvent(*id), regs(r))); }
+        for (id, r) in self.resource_reactors.iter() { out.push((TableKey::Resource(*id), regs(r))); }
+        for (id, r) in self.broadcast_reactors.iter() { out.push((TableKey::Broadcast(*id), regs(r))); }
+        out
+    }
+
+    #[cfg(feature = "verif_hooks")]
+    pub(crate) fn verif_tracked_removals(&self) -> Vec<TypeId>
+    {
+        self.removal_checkers.iter().map(|c| c.component_id).collect()
+    }
+
     pub(crate) fn despawn_sender(&self) -> Sender<Entity>
     {
         self.despawn_sender.clone()
